@@ -407,9 +407,10 @@ class L3(_Base):
                     cases.append(E(b"\x61" * k + b"\x00\x63" + body + b"\x68\x51", ck="multisig"))   # unexecuted: keys not added
                     cases.append(E(b"\x61" * k + body[:-1] + b"\xaf\x51", ck="multisig"))
         elif f == "stack":
-            for n in (997, 998, 999, 1000, 1001):
+            for n in (997, 998, 999, 1000, 1001, 1002, 1003):
                 st = [b"\x01"] * n
-                for sc in (b"\x76", b"\x76\x75", b"\x6b\x76\x76", b"\x6e", b"\x6f", b"\x61", b"\x51", b"\x74", b"\x6b\x6b\x51\x51\x51",
+                # the last five start by SHRINKING the stack: the limit is tested after each instruction, not before the first one
+                for sc in (b"\x75", b"\x6d", b"\x77", b"\x75\x51", b"\x6d\x51\x51", b"\x6d\x75", b"\x76", b"\x76\x75", b"\x6b\x76\x76", b"\x6e", b"\x6f", b"\x61", b"\x51", b"\x74", b"\x6b\x6b\x51\x51\x51",
                            b"\x76\x6b", b"\x6e\x6d", b"\x51\x51\x51", b"\x73", b"\x00\x63\x51\x51\x51\x68", b"\x7d", b"\x78"):
                     cases.append(E(sc, st))
         elif f == "scriptsize":
